@@ -1,3 +1,5 @@
+#[cfg(mos_verif_threads)]
+use mos_simrt::std_shim as std;
 mod analysis;
 mod config_extractor;
 mod config_validator;
@@ -1375,9 +1377,9 @@ impl CodegenContext {
 #[cfg(mos_verif)]
 pub mod verif_hooks {
     use super::*;
-    use std::cell::RefCell;
-    use std::collections::hash_map::DefaultHasher;
-    use std::hash::{Hash, Hasher};
+    use ::std::cell::RefCell;
+    use ::std::collections::hash_map::DefaultHasher;
+    use ::std::hash::{Hash, Hasher};
 
     /// Called after every completed pass with (pass index, digest of the loop state). Returns true to stop.
     pub type Observer = Box<dyn FnMut(usize, u64) -> bool>;
